@@ -344,6 +344,7 @@ def on_jacobian(call):
 
 
 def install():
+    probe.enable_argflip({"WCS.image2sky": None, "WCS.sky2image": None}, every=4)
     probe.enable_recall("C10.recall", every=5)
     base = "esutil.wcsutil:WCS."
     probe.instrument(base + "__init__", [on_init])
